@@ -3,7 +3,7 @@
    (full object tree: class skeleton WITH the stored scalars/vectors, domain, range, is_linear)
    or the error class it raised, and values at some points (out-of-place and in-place). *)
 From Coq Require Import ZArith QArith List Bool.
-From Verif Require Import Base.Num Base.Vec Base.Check C04.Model C04.ModelIP C04.Cplx Gen.OpTables C04.Tables.
+From Verif Require Import Base.Num Base.Vec Base.Check C04.Model C04.ModelIP C04.ModelMem C04.Cplx Gen.OpTables C04.Tables.
 Import ListNotations.
 
 Section Corr.
@@ -40,8 +40,33 @@ Fixpoint skel_ok (o : oexpr T) (k : skel) : bool :=
 Inductive impl_build :=
 | BOk (k : skel) (dom ran : sp) (lin func : bool) | BTypeErr | BZeroDiv | BOther.
 
-Record point := { p_x : vec; p_out : vec; p_ip : option vec }.
-Record case := { c_vt : variant; c_expr : sexpr T; c_build : impl_build; c_points : list point }.
+(* p_alias: does the out-of-place result share memory with x (np.shares_memory)? *)
+Record point := { p_x : vec; p_out : vec; p_ip : option vec; p_alias : bool }.
+(* c_kon: memory contract (result fresh?, in-place alias-safe?) of the leaf with each l_id *)
+Record case := { c_vt : variant; c_kon : list (bool * bool); c_expr : sexpr T; c_build : impl_build;
+                 c_points : list point }.
+Definition kon_of (l : list (bool * bool)) (id : nat) : lcontract :=
+  match nth_error l id with
+  | Some (f, a) => {| k_fresh := f; k_alias := a |}
+  | None => {| k_fresh := true; k_alias := true |}
+  end.
+(* the store model: buffer 0 = x, buffer 1 = a NaN-filled out; out-of-place call, then the same
+   call again, then the in-place call, then out-of-place once more -- as the harness does *)
+Definition mem_ok (kon : nat -> lcontract) (o : oexpr T) (r : sp) (p : point) : bool :=
+  let st0 := store0 (p_x p) (dim r) in
+  let '(st1, r1) := oop kon o st0 0 in
+  let '(st2, r2) := oop kon o st1 0 in
+  let st3 := match p_ip p with Some _ => ip kon o st2 0 1 | None => st2 end in
+  let '(st4, r4) := oop kon o st3 0 in
+  let val := fun st i => match unp (sget st i) with Some y => vcl (p_out p) y | None => false end in
+  val st1 r1 && val st2 r2 && val st4 r4
+  && match p_ip p, unp (sget st3 1) with
+     | Some y, Some y' => vcl y y'
+     | Some _, None => false
+     | None, _ => true
+     end
+  && match unp (sget st4 0) with Some x' => vcl (p_x p) x' && vcl x' (p_x p) | None => false end
+  && match r with SV _ => Bool.eqb (Nat.eqb r1 0) (p_alias p) | SF => true end.
 
 Definition check (k : case) : bool :=
   let s := c_expr k in let vt := c_vt k in
@@ -61,7 +86,8 @@ Definition check (k : case) : bool :=
                              | None => false
                              end
               | None => true
-              end)
+              end
+           && mem_ok (kon_of (c_kon k)) o r p)
          (c_points k)
   | Err TypeErr, BTypeErr => true
   | Err ZeroDivErr, BZeroDiv => true
@@ -93,6 +119,7 @@ Definition qMat := @LMat Q _.
 Definition qAff := @LAff Q _.
 Definition qSq := @LSq Q _.
 Definition qCube := @LCube Q _.
+Definition qNSt := @LNSt Q _.
 Definition qAbs := @LAbs Q _.
 Definition qIP := @LIP Q _.
 Definition qFLin := @FLin Q _.
@@ -108,6 +135,7 @@ Definition cMat := @LMat QC _.
 Definition cAff := @LAff QC _.
 Definition cSq := @LSq QC _.
 Definition cCube := @LCube QC _.
+Definition cNSt := @LNSt QC _.
 Definition cIP := @LIP QC _.
 Definition cFLin := @FLin QC _.
 Definition cFQuad := @FQuad QC _.
